@@ -4,7 +4,7 @@ import re
 KEYWORDS = ("func", "extern", "interface", "type", "lemma", "requires", "ensures", "modifies", "pure",
             "reads", "inline", "invariant", "loop", "assume", "history", "frame", "effectfree", "ghost",
             "lock", "atomic", "axiom", "nopanic", "acquires", "cancellable", "table", "action", "define",
-            "fresh", "terminates", "opaque", "nonnil", "callsite", "coverage", "returns", "blocking", "noreturn")
+            "fresh", "terminates", "opaque", "nonnil", "callsite", "coverage", "returns", "blocking", "noreturn", "after")
 
 TOK = re.compile(r"""
     (?P<ws>\s+)
@@ -21,6 +21,7 @@ class SpecError(Exception):
 
 
 def tokenize(s):
+    s = re.sub(r"(\w)\*(?=\s*[,)])", r"\1__STAR", s)
     out = []
     i = 0
     while i < len(s):
@@ -124,7 +125,7 @@ class Parser:
 
     def mul(self):
         a = self.unary()
-        while (self.peek()[1] in ("/", "%") and self.peek()[0] == "op") or self.peek()[0] == "star":
+        while (self.peek()[1] in ("/", "%", "*") and self.peek()[0] == "op") or self.peek()[0] == "star":
             op = self.nxt()[1]
             a = ("bin", op, a, self.unary())
         return a
@@ -135,7 +136,7 @@ class Parser:
         if self.peek() == ("op", "-"):
             self.nxt()
             return ("un", "-", self.unary())
-        if self.peek()[0] == "star":
+        if self.peek()[0] == "star" or self.peek() == ("op", "*"):
             self.nxt()
             return ("un", "*", self.unary())
         return self.postfix()
@@ -167,12 +168,24 @@ class Parser:
                 i = self.expr()
                 self.expect("]")
                 e = ("idx", e, i)
+            elif self.peek() == ("op", "{") and e[0] in ("id", "sel"):
+                self.nxt()
+                fields = []
+                if not self.accept("}"):
+                    while True:
+                        fname = self.nxt()[1]
+                        self.expect(":")
+                        fields.append((fname, self.expr()))
+                        if self.accept("}"):
+                            break
+                        self.expect(",")
+                e = ("lit", e, fields)
             else:
                 return e
 
     def qualname(self):
         parts = []
-        if self.peek()[0] == "star":
+        if self.peek()[0] == "star" or self.peek() == ("op", "*"):
             self.nxt()
             parts.append("*")
         t = self.nxt()
